@@ -119,3 +119,105 @@ async fn ghost_chain_from_a_peer_is_not_followed_by_a_full_node() {
         }
     }
 }
+
+/// C16 (every announced block the node lacks is eventually requested): a block queued for peer 1 stays queued when a peer
+/// without a fetch url announces the same hash (scenario of an independent audit)
+#[tokio::test]
+#[serial_test::serial]
+async fn announcement_from_a_peer_without_fetch_url_leaves_other_peers_queues_alone() {
+    use crate::core::consensus::peers::peer::Peer;
+    use crate::core::util::test::node_tester::test::NodeTester;
+    use crate::core::process::process_event::ProcessEvent;
+
+    let mut tester = NodeTester::default();
+    let peer_lock = tester.routing_thread.network.peer_lock.clone();
+    {
+        let mut peers = peer_lock.write().await;
+        // peer 1 : an honest full node we can fetch blocks from
+        let mut peer_1 = Peer::new(1);
+        peer_1.block_fetch_url = "http://peer1.invalid/block/".to_string();
+        peers.index_to_peers.insert(1, peer_1);
+        // peer 2 : a peer without a block fetch url (e.g. a lite / browser client)
+        peers.index_to_peers.insert(2, Peer::new(2));
+    }
+
+    // peer 1 announces 11 blocks the node lacks; batch size is 10, so 10 go in flight and
+    // block 11 stays queued. (Scheduler driven directly here only because the test I/O
+    // handler's fetch_block_from_peer is todo!(); these are the exact calls routing makes.)
+    let batch_size = 10;
+    for i in 1..=(batch_size + 1) {
+        tester
+            .routing_thread
+            .blockchain_sync_state
+            .add_entry([i as u8; 32], i as u64, 1, peer_lock.clone())
+            .await;
+    }
+    {
+        let blockchain = tester.routing_thread.blockchain_lock.read().await;
+        tester
+            .routing_thread
+            .blockchain_sync_state
+            .build_peer_block_picture(&blockchain);
+    }
+    let round_1 = tester
+        .routing_thread
+        .blockchain_sync_state
+        .get_blocks_to_fetch_per_peer();
+    assert_eq!(round_1.get(&1).unwrap().len(), batch_size);
+    assert_eq!(
+        tester
+            .routing_thread
+            .blockchain_sync_state
+            .get_fetching_block_count(),
+        (batch_size + 1) as u64
+    );
+    let queued_hash = [(batch_size + 1) as u8; 32];
+    assert!(!round_1.get(&1).unwrap().iter().any(|(h, _)| *h == queued_hash));
+
+    // peer 2 (no fetch url) now announces the block that is still queued for peer 1.
+    // This goes through the real routing code: process_incoming_message ->
+    // process_incoming_block_hash -> fetch_next_blocks.
+    tester
+        .routing_thread
+        .process_network_event(crate::core::io::network_event::NetworkEvent::IncomingNetworkMessage {
+            peer_index: 2,
+            buffer: Message::BlockHeaderHash(queued_hash, (batch_size + 1) as u64).serialize(),
+        })
+        .await;
+
+    // the 10 in-flight fetches from peer 1 complete, freeing its whole quota
+    for i in 1..=batch_size {
+        tester
+            .routing_thread
+            .blockchain_sync_state
+            .mark_as_fetched([i as u8; 32]);
+    }
+
+    // the node still lacks block 11, nobody delivered it ...
+    {
+        let blockchain = tester.routing_thread.blockchain_lock.read().await;
+        assert!(!blockchain.blocks.contains_key(&queued_hash));
+        let mempool = tester.routing_thread.mempool_lock.read().await;
+        assert!(!mempool.blocks_queue.iter().any(|b| b.hash == queued_hash));
+        tester
+            .routing_thread
+            .blockchain_sync_state
+            .build_peer_block_picture(&blockchain);
+    }
+    // ... so the next selection round must request it from peer 1.
+    let round_2 = tester
+        .routing_thread
+        .blockchain_sync_state
+        .get_blocks_to_fetch_per_peer();
+    let requested = round_2
+        .get(&1)
+        .map(|v| v.iter().any(|(h, _)| *h == queued_hash))
+        .unwrap_or(false);
+    if !requested { witness(format!(
+        "block 11 was announced by peer 1, the node lacks it and it never arrived, yet it is never requested: an announcement of the same hash by url-less peer 2 made fetch_next_blocks call remove_entry(hash), which erased the entry queued for peer 1 as well (scheduler now holds {} entries)",
+        tester
+            .routing_thread
+            .blockchain_sync_state
+            .get_fetching_block_count()
+    )); }
+}
